@@ -28,6 +28,12 @@ package environment
 //@   on aftercall .NewRunNumber : rnErr = (result1 != nil)
 //@   on store environment.Environment.currentRunNumber : assert phase == 1 && rnAsked && !rnErr && !cancelled ; rnStored = true
 //@   on call .SetRuntimeVar : assert phase == 1 && !cancelled
+// C10 (each run timestamp is set at most once per run): the end-of-run time is written only as the reset at the start of
+// a run, or after this very variable has just been read and found empty
+//@   ghostvar readKey string = ""
+//@   ghostvar readEmpty bool = false
+//@   [C10] on aftercall .Get : readKey = arg0 ; readEmpty = result1 && result0 == ""
+//@   [C10] on call .SetRuntimeVar when arg0 == "run_end_time_ms" : assert arg1 == "" || (readKey == "run_end_time_ms" && readEmpty)
 //@   on call (*Environment).handleHooksWithPositiveWeights : assert phase == 1 && !cancelled && !negErr && !rnErr ; phase = 2
 //@   ensures phase == 2 || cancelled
 //@   ensures negErr ==> cancelled && phase == 1
@@ -47,6 +53,10 @@ package environment
 //@   on aftercall (*Environment).handleHooksWithNegativeWeights : negErr = (result != nil)
 //@   on call (*fsm.Event).Cancel : cancelled = true
 //@   on call .SetRuntimeVar : assert phase == 1 && !cancelled
+//@   ghostvar readKey string = ""
+//@   ghostvar readEmpty bool = false
+//@   [C10] on aftercall .Get : readKey = arg0 ; readEmpty = result1 && result0 == ""
+//@   [C10] on call .SetRuntimeVar when arg0 == "run_end_time_ms" : assert arg1 == "" || (readKey == "run_end_time_ms" && readEmpty)
 //@   on call (*Environment).handleHooksWithPositiveWeights : assert phase == 1 && !cancelled && !negErr ; phase = 2
 //@   on aftercall (*Environment).handleHooksWithPositiveWeights : posErr = (result != nil)
 //@   on call <dynamic> : assert phase == 2 && !negErr ; phase = 3
@@ -78,10 +88,22 @@ package environment
 //@   ghostvar rnDropped bool = false
 //@   on call (*Environment).handleHooksWithNegativeWeights : assert phase == 0 ; phase = 1
 //@   on call .SetRuntimeVar : assert phase == 1
+// C10: the end-completion time is written when STOP_ACTIVITY completes, or (GO_ERROR) after it was read and found empty
+//@   ghostvar readKey string = ""
+//@   ghostvar readEmpty bool = false
+//@   [C10] on aftercall .Get : readKey = arg0 ; readEmpty = result1 && result0 == ""
+//@   [C10] on call .SetRuntimeVar when arg0 == "run_end_completion_time_ms" : assert arg1 == "" || isStop || (readKey == "run_end_completion_time_ms" && readEmpty)
+//@   [C10] on call .SetRuntimeVar when arg0 == "run_end_time_ms" : assert arg1 == "" || (readKey == "run_end_time_ms" && readEmpty)
 //@   on call (*Environment).handleHooksWithPositiveWeights : assert phase == 1 ; phase = 2
 //@   on store environment.Environment.currentRunNumber : assert phase == 2 && value == 0 && isStop ; rnDropped = true
 //@   ensures phase == 2
 //@   ensures isStop ==> rnDropped
+
+// C10 (the run number is gone once the run is over): a START_ACTIVITY whose task transition fails leaves the environment
+// without a current run number - the run that was numbered in before_START_ACTIVITY never started.
+//@ func (t StartActivityTransition) do(env *Environment) (err error)
+//@   property C10
+//@   ensures env != nil && err != nil ==> env.currentRunNumber == 0
 
 // The three hook entry points select weights by sign: negative, non-negative, all.
 //@ closure (*Environment).handleHooksWithNegativeWeights #1
@@ -101,20 +123,24 @@ package environment
 // failures of critical hooks are collected as transition errors.
 //@ ghost pure func sortedW(w []callable.HookWeight) bool = forall a int, b int :: 0 <= a && a <= b && b < len(w) ==> w[a] <= w[b]
 //@ func (env *Environment) handleHooks(workflow workflow.Role, trigger string, weightPredicate func(callable.HookWeight) bool) (err error)
-//@   property C08 C09
+//@   property C08 C09 C06
 //@   opt pure-params=weightPredicate
 //@   ghostvar awaitedAt int = -1
 //@   ghostvar tasksAt int = -1
 //@   ghostvar lastCrit bool = false
-//@   on call (callable.Calls).StartAll : assert awaitedAt <= #i && tasksAt <= #i
-//@   on call (callable.Calls).AwaitAll : assert tasksAt <= #i ; awaitedAt = #i + 1
-//@   on call (*Environment).runTasksAsHooks : assert tasksAt <= #i ; tasksAt = #i + 1
-//@   on aftercall .GetTraits : lastCrit = result.Critical
-//@   on call append when argtype0 == "[]error" : assert lastCrit
-//@   on call delete : assert argtype0 == "callable.CallsMap" && awaitedAt == #i + 1
-//@   loop 3 invariant #i >= -1 && #i < len(allWeights) && sortedW(allWeights) && sortedW(filteredWeights) && fresh(filteredWeights)
-//@   loop 3 invariant len(filteredWeights) > 0 ==> #i >= 0 && filteredWeights[len(filteredWeights) - 1] <= allWeights[#i]
-//@   loop 4 invariant #i >= -1 && awaitedAt <= #i && tasksAt <= #i && sortedW(filteredWeights) && fresh(filteredWeights)
+//@   [C08 C09] on call (callable.Calls).StartAll : assert awaitedAt <= #i && tasksAt <= #i
+//@   [C08 C09] on call (callable.Calls).AwaitAll : assert tasksAt <= #i ; awaitedAt = #i + 1
+//@   [C08 C09] on call (*Environment).runTasksAsHooks : assert tasksAt <= #i ; tasksAt = #i + 1
+//@   [C08 C09] on aftercall .GetTraits : lastCrit = result.Critical
+//@   [C08 C09] on call append when argtype0 == "[]error" : assert lastCrit
+//@   [C08 C09] on call delete : assert argtype0 == "callable.CallsMap" && awaitedAt == #i + 1
+// C08 / C06 (each started call is collected exactly once, or cancelled at teardown): registering a started call for its
+// await moment never drops calls registered before - the per-moment map of pending calls is replaced only when there is
+// none yet or it holds nothing (whatever the weight the new call is awaited at)
+//@   [C06 C08 C09] on mapupdate environment.Environment.callsPendingAwait : assert !(key in env.callsPendingAwait) || len(env.callsPendingAwait[key]) == 0
+//@   [C08 C09] loop 3 invariant #i >= -1 && #i < len(allWeights) && sortedW(allWeights) && sortedW(filteredWeights) && fresh(filteredWeights)
+//@   [C08 C09] loop 3 invariant len(filteredWeights) > 0 ==> #i >= 0 && filteredWeights[len(filteredWeights) - 1] <= allWeights[#i]
+//@   [C08 C09] loop 4 invariant #i >= -1 && awaitedAt <= #i && tasksAt <= #i && sortedW(filteredWeights) && fresh(filteredWeights)
 
 // C09 ("several hooks failing at the same point are reported together without harming the core"): the goroutine that
 // collects the outcomes of the task hooks of one moment stops a hook's timeout timer only if it has just found that timer
@@ -126,6 +152,9 @@ package environment
 //@   ghostvar have bool = false
 //@   on lookup var.hookTimers : have = result1
 //@   on call (*time.Timer).Stop : assert have
+// C09 (non-zero exit and involuntary termination are failures): a terminated hook is counted as successful only if it
+// ended by itself with exit code 0 (an exit code of -1 is what a process killed by a signal reports)
+//@   on call builtin.append when argtype0 == "task.Tasks" : assert evt.ExitCode == 0 && evt.VoluntaryTermination
 
 // ---------------------------------------------------------------------------------------------------------
 // C01 / C02 / C09: TryTransition fires the FSM event only while holding transitionMutex (released by a deferred Unlock),
